@@ -154,7 +154,7 @@ def history_array_rules(prog, ctx, rule):
     if de is None or len(main) != 1:
         raise Inconclusive("check_conf_dir: loop over the scandir result not recognised")
     main = main[0]
-    hb = [b for b in cfg.blocks.values() if b.term is main][0].id
+    hb = cfg.loop_header(main)
     body = cfg.natural_loop(hb)
     frees_elem = [c for c in f.calls("free") if c.call_args() and render(c.call_args()[0]).startswith(de + "[")]
     frees_arr = [c for c in f.calls("free") if c.call_args() and render(c.call_args()[0]) == de]
@@ -178,7 +178,7 @@ def history_array_rules(prog, ctx, rule):
         incb = [b for b in cfg.blocks.values() if inc is not None and any(e is inc or e.within(inc) for e in b.elems)]
         target = incb[0].id if incb else hb
         # all paths from the loop body entry to the increment pass the free block
-        body_entry = cfg.blocks[hb].succs[0]
+        body_entry = cfg.loop_body_entry(main)
         reach = cfg.reachable(body_entry, avoid_blocks=[fb, hb])
         if target in reach:
             wp = cfg.witness_path(target, start=body_entry, avoid_blocks=[fb, hb])
@@ -275,7 +275,7 @@ def history_array_rules(prog, ctx, rule):
     if len(wl) != 1:
         raise Inconclusive("merge_econf_files: outer loop not recognised")
     wl = wl[0]
-    whb = [b for b in mcfg.blocks.values() if b.term is wl][0].id
+    whb = mcfg.loop_header(wl)
     rel = [c for c in m.calls(("econf_freeFile", "econf_free")) if c.within(wl)]
     rel_cur = [c for c in rel if render(c.call_args()[0]) == "*key_files"]
     if not rel_cur:
@@ -290,7 +290,7 @@ def history_array_rules(prog, ctx, rule):
                 gb = b
         if gb is None:
             gb = mcfg.block_of(c)
-        entry = mcfg.blocks[whb].succs[0]
+        entry = mcfg.loop_body_entry(wl)
         reach = mcfg.reachable(entry, avoid_blocks=[gb, whb])
         backsrc = [b for (b, i, s) in mcfg.back_edges() if s == whb]
         if any(b in reach for b in backsrc):
